@@ -399,6 +399,18 @@ static void attempt(cs_scenario *sc, const int *unk, int nunk, double ptol,
     o->nonwarn = elog.nonwarn;
     r->transitions += sc->nstd + 3;
     if (o->rc == 0) {
+	/* a second solve of the same object starts from the solved values
+	   and must end there again */
+	vf_errlog_reset(&elog);
+	errno = 0;
+	int rc2 = vnacal_new_solve(vnp);
+	if (rc2 != 0 || elog.nonwarn != 0) {
+	    o->rc = -3;
+	    o->err_no = errno;
+	    goto out;
+	}
+    }
+    if (o->rc == 0) {
 	double worst = 0;
 	for (int u = 0; u < nunk; ++u)
 	    for (int f = 0; f < sc->vna.nf; ++f) {
